@@ -134,6 +134,17 @@ func Run(r *ev.Run) {
 			continue
 		}
 		r.Eval(string(stream), "base -> accepted")
+		// "accepted" means the backend gets the decrypted hello: the unmutated base, in one record and framed in two, is
+		// forwarded as the reference reconstruction (never as the client's outer records)
+		for _, framed := range [][]byte{stream, tlsref.Fragment(0x0301, built.Outer.Msg(), 100), tlsref.Fragment(0x0301, built.Outer.Msg(), 3)} {
+			fr := echx.Feed(framed, keys)
+			want := built.Expected.Msg()
+			got, rest := tlsref.HandshakeBytes(fr.Forwarded, len(want))
+			if fr.Err != nil || !fr.Accepted || !bytes.Equal(got, want) || len(rest) != 0 {
+				r.Violation("accepted-but-not-decrypted-hello-forwarded", fmt.Sprintf("valid hello (framed in %d bytes of records): err=%v accepted=%v; the backend received %d bytes that are not the reconstructed inner hello", len(framed), fr.Err, fr.Accepted, len(fr.Forwarded)), map[string]any{"base": b, "stream": echx.Hex(framed), "keys": echx.KeysDoc(keys)})
+			}
+			r.Eval(string(framed)+"fwd", "base -> accepted, inner forwarded")
+		}
 		flipAll := true // every single-bit flip on every base tuple (cheap enough for the quick tier too)
 		_ = bi
 		if flipAll {
